@@ -17,6 +17,7 @@ from smartquery.exceptions import ParserError
 REGEX_TIMEOUT = 0.05
 MAX_ARRAY_SIZE = 10000
 CAST_DICT_KEYS_TO_STRINGS = True  # for JSON serialisation compatability
+NUMERIC_TYPES = (Decimal_, int, float)
 
 
 def pretty(value: Any, sep=...) -> str:
@@ -146,7 +147,7 @@ def _set_with_op(container: Any, key: Any, op: str, value: Any) -> Any:
     elif op == '-=':
         container[key] -= value
     elif op == '*=':
-        container[key] *= value
+        container[key] = _multiply(container[key], value)
     elif op == '/=':
         container[key] /= value
     else:
@@ -316,6 +317,13 @@ def _reversed(container: Union[list, str]):
 def _check_array_size(arr: Union[list, dict]):
     if len(arr) >= MAX_ARRAY_SIZE:
         raise ParserError(f'Array size overflow: {MAX_ARRAY_SIZE}')
+
+
+def _multiply(op1: Any, op2: Any) -> Any:
+    if not isinstance(op1, NUMERIC_TYPES) or not isinstance(op2, NUMERIC_TYPES):
+        raise ParserError(f'Can\'t multiply non-numbers')
+
+    return Decimal(op1) * Decimal(op2)
 
 
 FUNCTIONS: Dict[str, Callable] = {
